@@ -71,7 +71,8 @@ kf = json.load(open(kf_path))
 for name, h in done.items():
     hit = False
     for k in kf["findings"]:
-        if k["property"] == pid and name in k.get("description", "") and k["status"] == "open":
+        if (k["property"] == pid and name in k.get("description", "") and k["status"] == "open"
+                and "no patch" not in k.get("description", "").lower()):
             k["status"] = f"fixed: {h}"
             hit = True
             print("finding fixed:", k["signature"], h)
